@@ -835,7 +835,10 @@ M('C09-mismatch-unsupported-only', 'C09', CONN, "        if proto not in self.co
 M('C09-not-narrowed', 'C09', CONN, "        self.connection.allowed_proto_versions = {proto_version}\n        self.connection.connect()",
   "        self.connection.connect()", rule='R09.4')
 M('C09-helper-accepts-known', 'C09', CONN, "                proto_version = SUPPORTED_MINECRAFT_VERSIONS.get(version)",
-  "                proto_version = KNOWN_MINECRAFT_VERSIONS.get(version)", expect='silent')
+  "                proto_version = KNOWN_MINECRAFT_VERSIONS.get(version)", rule='R09.1')
+# (first catalogued as a twin: wrong -- 40 unsupported snapshot names share
+# their protocol number with a supported release and are then accepted; seed
+# C09-d demonstrates it)
 M('C09-helper-no-membership-test', 'C09', CONN,
   "            if proto_version not in SUPPORTED_PROTOCOL_VERSIONS:\n                raise ValueError('Unsupported version number: %r.' % version)",
   "            if proto_version is None:\n                raise ValueError('Unsupported version number: %r.' % version)",
